@@ -118,7 +118,7 @@ impl std::fmt::Debug for Condvar {
 pub struct RwLock<T: ?Sized> {
     lock: shuttle::sync::RwLock<()>,
     wslot: UnsafeCell<Option<shuttle::sync::RwLockWriteGuard<'static, ()>>>,
-    rslot: UnsafeCell<Vec<shuttle::sync::RwLockReadGuard<'static, ()>>>,
+    rslot: UnsafeCell<Vec<(shuttle::scheduler::TaskId, shuttle::sync::RwLockReadGuard<'static, ()>)>>,
     data: UnsafeCell<T>,
 }
 unsafe impl<T: ?Sized + Send> Send for RwLock<T> {}
@@ -145,7 +145,7 @@ impl<T: ?Sized> RwLock<T> {
         // always popped (dropped) before self can be dropped because a shim guard
         // or a forgotten-guard obligation (force_unlock) borrows self.
         let g: shuttle::sync::RwLockReadGuard<'static, ()> = unsafe { std::mem::transmute(g) };
-        unsafe { (*self.rslot.get()).push(g) };
+        unsafe { (*self.rslot.get()).push((shuttle::current::me(), g)) };
     }
     fn park_write(&self, g: shuttle::sync::RwLockWriteGuard<'_, ()>) {
         let g: shuttle::sync::RwLockWriteGuard<'static, ()> = unsafe { std::mem::transmute(g) };
@@ -190,8 +190,12 @@ impl<T: ?Sized> RwLock<T> {
     /// # Safety
     /// as parking_lot: a read lock must be held by a forgotten guard.
     pub unsafe fn force_unlock_read(&self) {
-        let g = (*self.rslot.get()).pop();
-        drop(g.expect("force_unlock_read without a parked read guard"));
+        // release the guard that THIS task parked (shuttle tracks lock holders per task)
+        let me = shuttle::current::me();
+        let v = &mut *self.rslot.get();
+        let i = v.iter().rposition(|(t, _)| *t == me).expect("force_unlock_read without a read guard parked by this task");
+        let (_, g) = v.remove(i);
+        drop(g);
     }
     /// # Safety
     /// as parking_lot: the write lock must be held by a forgotten guard.
